@@ -16,7 +16,7 @@ fi
 case "$PROP" in
   C03|C04|C05)
     # instrumented variant: overlay generated from the current working tree of /repo
-    if go build -o build/vinstr ./cmd/vinstr 2>build/vinstr.err && ./build/vinstr -out build/overlay -vrt internal/vrtsrc/vrt.go.txt >build/vinstr.out 2>&1 \
+    if go build -o build/vinstr ./cmd/vinstr 2>build/vinstr.err && ./build/vinstr -repo "${VERIF_REPO:-/repo}" -out build/overlay -vrt internal/vrtsrc/vrt.go.txt >build/vinstr.out 2>&1 \
        && go build -tags verif -overlay build/overlay/overlay.json -o build/vcheck-instr ./cmd/vcheck 2>build/build-instr.err; then
       if [ "$PROP" = "C05" ]; then
         # adjunct: the same scenario bodies free-running under the race detector
